@@ -13,6 +13,9 @@ CLASSES = ["eq", "ord", "hash", "monoid", "clone"]
 #   "slice": a generic local instance function EqSlice / CloneSlice (README 6.1: overrides eq.Slice / clone.Slice)
 #   "dur": "Duration" | "TimeDuration" - a local instance for time.Duration under its short or package-qualified name
 OVER = {}
+# while the references of one struct are written: the struct table and whether its directive says recursive=true (a field
+# whose struct type has no directive of its own is derived only then; otherwise the catch-all Given is the documented choice)
+REFCTX = {"structs": {}, "recursive": True}
 TC = {"eq": "Eq", "ord": "Ord", "hash": "Hashable", "monoid": "Monoid", "clone": "Clone"}
 
 
@@ -115,6 +118,13 @@ def ref(cls, t, C):
             if cls == "clone":
                 return "clone.GoMap(clone.Given[string](), %s)" % inner
         return "%s.%s(%s)" % (cls, {"slice": "Slice", "seq": "Seq", "opt": "Option"}[k], inner)
+    if k == "emb":
+        return ref(cls, ("struct", t[1]), C)
+    if k == "struct" and len(t) == 2 and REFCTX["structs"].get(t[1], {}).get("nodirective") and cls in ("eq", "clone"):
+        # a struct without a directive of its own: recursive=true derives it where only the catch-all Given[T any] would fit
+        # (clone, or eq of a struct that is not comparable); a comparable struct has eq.Given[T comparable] in any case
+        if not REFCTX["recursive"] or (cls == "eq" and comparable(t, REFCTX["structs"])):
+            return "%s.Given[%s]()" % (cls, t[1])
     if k == "bytes":
         return {"eq": "eq.Bytes", "hash": "hash.Bytes", "clone": "clone.Slice(clone.Given[byte]())", "ord": "ord.Slice(ord.Given[byte]())"}[cls]
     if k == "struct":
@@ -138,6 +148,17 @@ def ref(cls, t, C):
         "clone": {"int": "clone.Given[int]()", "string": "clone.Given[string]()", "bool": "clone.Given[bool]()", "dur": "clone.Given[time.Duration]()"},
     }
     return base[cls][k]
+
+
+def comparable(t, structs):
+    k = t[0]
+    if k in ("slice", "seq", "map", "bytes"):
+        return False
+    if k in ("opt",):
+        return comparable(t[1], structs)
+    if k in ("struct", "emb"):
+        return t[1] == "Empty" or all(comparable(ft, structs) for _, ft in structs[t[1]]["fields"])
+    return True
 
 
 def candidates(t):
@@ -353,7 +374,19 @@ def special_structs():
     # an empty embedded struct is no field of the representation; []byte has instances of its own
     s["WithEmpty"] = dict(name="WithEmpty", fields=[("Empty", ("emb", "Empty")), ("a", ("int",)), ("b", ("string",))], classes=["eq", "ord", "hash", "clone"], value=True, tparams=[])
     s["Blob"] = dict(name="Blob", fields=[("data", ("bytes",)), ("n", ("int",)), ("chunks", ("slice", ("bytes",)))], classes=["eq", "hash", "clone"], value=True, tparams=[])
-    return s, ["Node", "Tree", "Big", "Pair", "Phantom", "Leaf", "Holder", "Prec", "PrecM", "W21", "W22", "P22", "Mixed", "Holder2", "Rev", "UsesPair", "WithEmpty", "Blob"]
+    # a plain struct embedding a struct that has only unexported fields: the embedded field takes part like any other
+    s["AuditP"] = dict(name="AuditP", fields=[("rev", ("int",)), ("owner", ("named", "MyInt"))], classes=["eq", "ord", "hash", "monoid", "clone"], value=True, tparams=[])
+    s["DocP"] = dict(name="DocP", fields=[("AuditP", ("emb", "AuditP")), ("Title", ("string",)), ("Pages", ("slice", ("int",)))], classes=["eq", "ord", "hash", "monoid", "clone"], value=False,
+                     tparams=[])
+    # a struct without directive used first under a plain directive (the catch-all Given is right there) and afterwards
+    # under recursive=true (where it has to be derived field by field, MyInt through the overriding instance)
+    s["Xleaf"] = dict(name="Xleaf", fields=[("M", ("named", "MyInt")), ("S", ("string",))], classes=[], value=False, tparams=[], nodirective=True)
+    s["XPlain"] = dict(name="XPlain", fields=[("X", ("struct", "Xleaf")), ("N", ("int",))], classes=["eq"], value=False, tparams=[])
+    s["XRec"] = dict(name="XRec", fields=[("X", ("struct", "Xleaf")), ("K", ("string",))], classes=["eq"], value=False, tparams=[], recursive_flag=True)
+    s["Yleaf"] = dict(name="Yleaf", fields=[("L", ("slice", ("int",))), ("M", ("named", "MyInt"))], classes=[], value=False, tparams=[], nodirective=True)
+    s["YPlain"] = dict(name="YPlain", fields=[("Y", ("struct", "Yleaf")), ("N", ("int",))], classes=["clone"], value=False, tparams=[], shallow=True)
+    s["YRec"] = dict(name="YRec", fields=[("Y", ("struct", "Yleaf")), ("K", ("string",))], classes=["clone", "eq"], value=False, tparams=[], recursive_flag=True)
+    return s, ["AuditP", "DocP", "Xleaf", "XPlain", "XRec", "Yleaf", "YPlain", "YRec", "Node", "Tree", "Big", "Pair", "Phantom", "Leaf", "Holder", "Prec", "PrecM", "W21", "W22", "P22", "Mixed", "Holder2", "Rev", "UsesPair", "WithEmpty", "Blob"]
 
 
 def override_structs():
@@ -461,7 +494,7 @@ def _go_source(pkg, structs, order):
            '\t"github.com/csgura/fp/hash"\n\t"github.com/csgura/fp/lazy"\n\t"github.com/csgura/fp/monoid"\n\t"github.com/csgura/fp/ord"\n)\n',
            "var _ time.Duration\nvar _ = lazy.Done[int]\nvar _ = clone.Given[int]\nvar _ = hash.String\nvar _ = ord.Given[int]\nvar _ = eq.String\nvar _ = monoid.String\nvar _ fp.Unit\nvar _ other.Plain\n",
            "func vCounters() map[string]int {\n\tm := map[string]int{}\n\tfor k, v := range vUsed {\n\t\tm[k] = v\n\t}\n\tfor k, v := range other.Used {\n\t\tm[k] = v\n\t}\n\treturn m\n}\n",
-           "var vRegistry = []vEntry{}\n",
+           "var vRegistry = []vEntry{}\nvar vIfaceValues = []any{}\n",
            SILENT % dict(N="MyInt", Q="MyInt") + SILENT % dict(N="Code", Q="other.Code") + SILENT % dict(N="Both", Q="other.Both"),
            "var vSMonoidInt fp.Monoid[int] = monoid.New(func() int { return 0 }, func(a, b int) int { return a + b })\n", SILENT_OVER]
     inits = []
@@ -486,7 +519,8 @@ def _go_source(pkg, structs, order):
         need_eq = any(c in all_cls for c in ("eq", "ord", "hash")) or st.get("nodirective")
         for ta in (insts.get(name) or [()]):
             mapping = dict(zip(st["tparams"], ta))
-            finst = [(fn, subst(t, st["tparams"], mapping)) for fn, t in st["fields"] if t[0] != "emb"]
+            REFCTX["structs"], REFCTX["recursive"] = structs, bool(st.get("recursive_flag")) or bool(st.get("nodirective"))
+            finst = [(fn, subst(t, st["tparams"], mapping)) for fn, t in st["fields"] if t != ("emb", "Empty")]
             S = name + (targs_text(ta) if ta else "")
             rn = name + (inst_suffix(ta) if ta else "")
             if need_eq:
@@ -502,7 +536,7 @@ def _go_source(pkg, structs, order):
             if "monoid" in all_cls:
                 reg.append("func vRefEmpty_%s() %s {\n\treturn %s{%s}\n}\n" % (rn, S, S, ", ".join("%s: (%s).Empty()" % (fn, ref("monoid", t, None)) for fn, t in finst)))
                 reg.append("func vRefCombine_%s(a, b %s) %s {\n\treturn %s{%s}\n}\n" % (rn, S, S, S, ", ".join("%s: (%s).Combine(a.%s, b.%s)" % (fn, ref("monoid", t, None), fn, fn) for fn, t in finst)))
-        inst = [(fn, subst(t, st["tparams"])) for fn, t in st["fields"] if t[0] != "emb"]
+        inst = [(fn, subst(t, st["tparams"])) for fn, t in st["fields"] if t != ("emb", "Empty")]
         targs = ("[" + ", ".join("int" for _ in st["tparams"]) + "]") if st["tparams"] else ""
         S = name + targs
         rn = name
@@ -511,10 +545,12 @@ def _go_source(pkg, structs, order):
             ta, ia = inst_args(st, cls, None)
             call = "%s%s%s(%s)" % (T, name, ta, ia)
             cands = []
+            REFCTX["structs"], REFCTX["recursive"] = structs, bool(st.get("recursive_flag")) or bool(st.get("nodirective"))
             for fn, t in inst:
                 cands += cands_deep(cls, t, structs, set())
             cands = sorted(set(c for c in cands if c[0] != "Int" or cls == "monoid"))
             fields = ['name: "%s"' % name, 'cls: "%s"' % cls, "nfields: %d" % len(inst), "%s: %s" % (cls, call), "counters: vCounters",
+                      "shallow: %s" % ("true" if st.get("shallow") else "false"),
                       "cands: []vCand{%s}" % ", ".join('{"%s", %s, %s}' % (c[0], str(c[1]).lower(), str(c[2]).lower()) for c in cands)]
             if need_eq:
                 fields.append("refEq: vRefEq_%s" % rn)
@@ -530,11 +566,17 @@ def _go_source(pkg, structs, order):
 
 
 def cands_deep(cls, t, structs, seen):
+    if t[0] == "emb":
+        if t[1] == "Empty":
+            return []
+        t = ("struct", t[1])
     k = t[0]
     if k == "struct":
         if t[1] in seen:
             return []
         st = structs[t[1]]
+        if st.get("nodirective") and cls in ("eq", "clone") and (not REFCTX["recursive"] or (cls == "eq" and comparable(t, structs))):
+            return []
         mapping = dict(zip(st["tparams"], t[2])) if len(t) > 2 else None
         out = []
         for _, ft in st["fields"]:
